@@ -149,12 +149,13 @@ Definition p_u32 : parser N := fun d =>
   | a :: b :: c :: e :: r => Some (b2n a * 16777216 + b2n b * 65536 + b2n c * 256 + b2n e, r)
   | _ => None end.
 
-Definition take (n : nat) (d : list byte) : option (list byte * list byte) :=
-  if Nat.leb n (length d) then Some (firstn n d, skipn n d) else None.
+(* n is compared as a binary number first: a declared length may be 2^28 *)
+Definition take (n : N) (d : list byte) : option (list byte * list byte) :=
+  if n <=? len d then Some (firstn (N.to_nat n) d, skipn (N.to_nat n) d) else None.
 
 Definition p_str : parser (list byte) := fun d =>
   match p_u16 d with
-  | Some (l, r) => take (N.to_nat l) r
+  | Some (l, r) => take l r
   | None => None
   end.
 
@@ -233,7 +234,7 @@ Definition p_props (where_ : N) : parser (list aprop) := fun d =>
   match p_var d with
   | None => None
   | Some (l, r) =>
-    match take (N.to_nat l) r with
+    match take l r with
     | None => None
     | Some (pd, r') =>
       match p_props_body (S (length pd)) where_ [] pd with
